@@ -184,6 +184,13 @@ impl Searcher {
             #[cfg(weechess_verif)]
             weechess_simrt::probe::iteration(depth);
 
+            // Workers only poll the token every 10000 nodes, which small iterations never
+            // reach, so also honour a stop request between iterations. The first iteration
+            // always runs so that a best move is reported.
+            if depth > 0 && token.is_cancelled() {
+                break;
+            }
+
             // Don't bother doing multiple threads if we're only searching a few moves
             // as the OS overhead will likely outweigh the benefits of parallelism
             let thread_count = max_thread_count.unwrap_or_else(|| {
